@@ -274,7 +274,7 @@ def _configure():
         legs=[HTTP, STANDINS])
     cfg("C19", "other", ["A5", "A11", "A13"], assumptions=[A["A11"], "the corpus was written by the tree pinned for this task (HEAD 8109860 = the pinned commit a6bc6ed + the two `fix:` commits, neither of which touches the sqlite crate: `git diff a6bc6ed HEAD -- sqlite` is empty)"],
         not_reached=[NR_SQL, "the schema and every SQL statement (table / column names and meaning, timestamp unit, migration steps): SQL text, covered only by the fixture corpus", "databases left by a crash in the middle of a write (C04); the corpus holds clean images and one image with an un-checkpointed WAL"],
-        explanation="what of the on-disk form is Rust is under contract: StoredUuid's ToSql / FromSql impls (sqlite/src/lib.rs) write an id as owned TEXT holding exactly its canonical text and read it back by parsing that text, never inventing an id (enc.id.write, enc.id.read, round-trip lemma enc.id.roundtrip over the assumed uuid text law A11). Everything else that decides whether an old database is still served -- schema, column meaning, timestamp unit, start-up statements -- is SQL and is decided only for the committed corpus: 4 data directories written by the pinned tree, opened, read completely, compared with their recorded content and extended. 'other': a relation between two builds is not a contract on one of them",
+        explanation="what of the on-disk form is Rust is under contract: StoredUuid's ToSql / FromSql impls (sqlite/src/lib.rs) write an id as owned TEXT holding exactly its canonical text and read it back by parsing that text, never inventing an id (enc.id.write, enc.id.read, round-trip lemma enc.id.roundtrip over the assumed uuid text law A11); and unit U6 proves which values, in which order, unit and form, Txn::new_client / set_snapshot / add_version bind to their statements (timestamp in whole seconds, the given counter, the ids as text, the bytes as blobs: enc.new_client, enc.snapshot.write, enc.version.write) and how get_client decodes a row (dec.client), without pinning any SQL text. Everything else that decides whether an old database is still served -- schema, column meaning, timestamp unit, start-up statements -- is SQL and is decided only for the committed corpus: 4 data directories written by the pinned tree, opened, read completely, compared with their recorded content and extended. 'other': a relation between two builds is not a contract on one of them",
         legs=[FIXTURES, SQLCONF, STANDINS])
     cfg("C20", "other", ["A9", "A13"], assumptions=[A["A9"], "that actix-web applies a scope's middleware to EVERY response of the scope (errors, unknown routes) is assumed, not verified"],
         not_reached=[NR_HTTP, "other middleware wrapped by the binary's main() around the whole App (ErrorHandlers, Logger)"],
